@@ -38,6 +38,9 @@ def tag_value(h, l, kind):
     if kind == 2: return h.ref([l.byte([(0x61, 0x7a)])])
     if kind == 3: return h.num(12.5, 'meter')
     if kind == 4: return h.marker()
+    if kind == 6: return h.uri([l.byte([(0x61, 0x7a)]), 0x2f, 0x78])
+    if kind == 7: return h.sym([l.byte([(0x61, 0x7a)]), 0x68])
+    if kind == 8: return h.date(2021, 3, 4)
     return h.bool_(l.boolean())
 
 
@@ -68,7 +71,7 @@ def path(ex, t):
                 else: v = h.str_([l.byte([(0x20, 0x7e)]), 33])
                 pairs.append((tg, v))
     elif t['mode'] == 'kinds':
-        k = ex.pick(6)
+        k = ex.pick(9)
         v = tag_value(h, l, k)
         if k == 0 and t['tag'] in (b'disKey', b'disMacro'): v = h.str_(list(b'lk' if t['tag'] == b'disKey' else b'plain text'))
         pairs.append((t['tag'], v))
@@ -119,7 +122,13 @@ def spec_dis(rec, loc, default):
     def text(v, allow_ref_dis=False):
         if v['t'] == 'str': return bytes.fromhex(v['v'])
         if v['t'] == 'ref' and allow_ref_dis: return bytes.fromhex(v['dis'] if v.get('dis') is not None else v['v'])
-        return None      # other kinds: their display text (Zinc form) - compared natively only
+        # other kinds: their display text is their Zinc form (Value's Display); spelled out here for the kinds without escapes
+        if v['t'] == 'uri' and all(0x61 <= c <= 0x7a or c == 0x2f for c in bytes.fromhex(v['v'])): return b'`' + bytes.fromhex(v['v']) + b'`'
+        if v['t'] == 'sym': return b'^' + bytes.fromhex(v['v'])
+        if v['t'] == 'marker': return b'Marker'
+        if v['t'] == 'bool': return b'true' if v['v'] else b'false'
+        if v['t'] == 'date': return b'%04d-%02d-%02d' % (v['y'], v['m'], v['d'])
+        return None      # numbers, refs under a tag other than id: compared natively only
     for tg in TAGS:
         if tg not in d: continue
         v = d[tg]
